@@ -96,6 +96,15 @@ SEEDS = {
  "S33-c01-difference-subject-transition-mirror": dict(prop="C01", origin="independent sub-agent",
     change="determine_result_transition: for difference a subject edge gets the negated clipping formula instead of `this_in && !that_in`",
     needs="difference whose result has vertically stacked pieces (a piece whose lowest-left vertex has a top edge of the subject directly below it): the upper piece is attached as a hole and vanishes"),
+ "S34-c05-difference-subject-transition-or": dict(prop="C05", origin="independent sub-agent (same defect class as S33, different formula)",
+    change="determine_result_transition: subject branch of difference becomes `this_in || !that_in`",
+    needs="difference with a multi-part subject whose parts are stacked, or an island in a hole of the subject"),
+ "S35-c11-overlap-split-skipped-same-contour-id": dict(prop="C11", origin="independent sub-agent",
+    change="possible_intersection: in the shared-left-end overlap branch the longer edge is only split if the contour ids differ (clipping polygons of a difference share the last subject polygon's id)",
+    needs="difference with a subject edge and a clipping edge that are collinear, start at the same point and differ in length, the shorter one continued from below — e.g. (A union B) minus A"),
+ "S36-c04-skip-lower-neighbour-test-for-vertical": dict(prop="C04", origin="independent sub-agent",
+    change="subdivide: a vertical segment entering the sweep line is not tested against a non-vertical lower neighbour",
+    needs="the lower end of a vertical edge of one operand lying on a non-vertical edge of the other, one of the edges meeting there having been split earlier at a non-representable point (small integer lattice, arbitrary slopes)"),
  "S27-c06-empty-clipping-early-return": dict(prop="C06", origin="independent sub-agent",
     change="boolean_operation: early return of the subject when the clipping operand has no polygons, regardless of the operation",
     needs="intersection with an empty MultiPolygon on the right-hand side"),
